@@ -71,10 +71,13 @@ example : (C11ex.node1.produce C11ex.env C11ex.cfg 15 [C11ex.tx] "r2").isSome = 
 example : ((C11ex.node1.produce C11ex.env C11ex.cfg 15 [C11ex.tx] "r2").map
     (fun n' => n'.led.blocks.getLast?.map (fun b => (b.prevHash, b.ts)))) = some (some ("10", 15)) := by rfl
 
-/-- OBSERVATION: `Validate` accepts a tick dated BEFORE the last block (only `= last` and `> last + interval` are
-    refused), so the spacing of a produced block is `interval` only for an on-schedule tick (`ts = last +
-    interval`, the clock's obligation); here last = 10 and a block dated 7 is produced. -/
-example : ((C11ex.node1.produce C11ex.env C11ex.cfg 7 [C11ex.tx] "r2").map
-    (fun n' => n'.led.blocks.map (·.ts))) = some [5, 10, 7] := by rfl
+/-- OBSERVATION: a tick dated BEFORE the last block passes `Validate`'s own tests (only `= last` and
+    `> last + interval` are refused there) and is refused by `AddBlock`'s not-after-tip guard (fix: commit); a tick
+    strictly between `last` and `last + interval` still produces an off-grid block, so the spacing of a produced
+    block is `interval` only for an on-schedule tick (`ts = last + interval`, the clock's obligation);
+    here last = 10: a tick at 7 is refused, a tick at 12 produces a block dated 12. -/
+example : C11ex.node1.produce C11ex.env C11ex.cfg 7 [C11ex.tx] "r2" = none := by rfl
+example : ((C11ex.node1.produce C11ex.env C11ex.cfg 12 [C11ex.tx] "r2").map
+    (fun n' => n'.led.blocks.map (·.ts))) = some [5, 10, 12] := by rfl
 
 end Ru
